@@ -12,6 +12,7 @@ import (
 	"fmt"
 	"os"
 	"sort"
+	"strconv"
 	"sync/atomic"
 
 	pbindex "github.com/streamingfast/substreams/pb/sf/substreams/index/v1"
@@ -26,6 +27,21 @@ type InSpec struct {
 	Kind   string `json:"k"`           // params | block | clock | map | deltas | store
 	Name   string `json:"n,omitempty"` // module name / source type
 	SetSum bool   `json:"ss,omitempty"`
+	Float  bool   `json:"fl,omitempty"` // the store holds float64 values: read as a typed value, like an SDK getter
+}
+
+// typed reduces bytes read from a store to what a typed reader obtains: no set:/sum: tag (known finding KF2
+// is about that tag), and a float64 parsed (the write path prints 100 digits, the merge path the shortest form).
+func (in InSpec) typed(b []byte) []byte {
+	if in.SetSum {
+		b = stripSetSum(b)
+	}
+	if in.Float && len(b) > 0 {
+		if f, err := strconv.ParseFloat(string(b), 64); err == nil {
+			return []byte(strconv.FormatFloat(f, 'g', -1, 64))
+		}
+	}
+	return b
 }
 
 type ModSpec struct {
@@ -125,6 +141,7 @@ func (m *simModule) ExecuteNewCall(ctx context.Context, call *wasm.Call, cached 
 	h := &hasher{v: spec.Salt}
 	storeIdx := 0
 	var readers []int
+	var readerIns []InSpec
 	specIdx := 0
 	for _, a := range arguments {
 		if _, ok := a.(*wasm.StoreWriterOutput); ok {
@@ -163,10 +180,7 @@ func (m *simModule) ExecuteNewCall(ctx context.Context, call *wasm.Call, cached 
 				}
 				h.addS("D", fmt.Sprint(len(ds.StoreDeltas)))
 				for _, d := range ds.StoreDeltas {
-					ov, nv := d.OldValue, d.NewValue
-					if in.SetSum {
-						ov, nv = stripSetSum(ov), stripSetSum(nv)
-					}
+					ov, nv := in.typed(d.OldValue), in.typed(d.NewValue)
 					h.addS("d", fmt.Sprintf("%d|%d|%s|%x|%x", d.Operation, d.Ordinal, d.Key, ov, nv))
 				}
 			} else {
@@ -174,6 +188,7 @@ func (m *simModule) ExecuteNewCall(ctx context.Context, call *wasm.Call, cached 
 			}
 		case *wasm.StoreReaderInput:
 			readers = append(readers, storeIdx)
+			readerIns = append(readerIns, in)
 			storeIdx++
 		default:
 			return inst, fmt.Errorf("simvm: unknown argument %T", a)
@@ -181,7 +196,8 @@ func (m *simModule) ExecuteNewCall(ctx context.Context, call *wasm.Call, cached 
 	}
 
 	// store reads: chosen from the state so far, results folded in
-	for _, idx := range readers {
+	for ri, idx := range readers {
+		in := readerIns[ri]
 		n := 2 + int(h.next()%3)
 		for i := 0; i < n; i++ {
 			r := h.next()
@@ -190,13 +206,13 @@ func (m *simModule) ExecuteNewCall(ctx context.Context, call *wasm.Call, cached 
 			switch (r >> 16) % 6 {
 			case 0:
 				v, f := call.DoGetLast(idx, key)
-				h.addS("gl", fmt.Sprintf("%v|%x", f, v))
+				h.addS("gl", fmt.Sprintf("%v|%x", f, in.typed(v)))
 			case 1:
 				v, f := call.DoGetFirst(idx, key)
-				h.addS("gf", fmt.Sprintf("%v|%x", f, v))
+				h.addS("gf", fmt.Sprintf("%v|%x", f, in.typed(v)))
 			case 2:
 				v, f := call.DoGetAt(idx, ord, key)
-				h.addS("ga", fmt.Sprintf("%v|%x", f, v))
+				h.addS("ga", fmt.Sprintf("%v|%x", f, in.typed(v)))
 			case 3:
 				h.addS("hl", fmt.Sprint(call.DoHasLast(idx, key)))
 			case 4:
@@ -266,7 +282,7 @@ func (m *simModule) ExecuteNewCall(ctx context.Context, call *wasm.Call, cached 
 	return inst, nil
 }
 
-var decimals = []string{"0.25", "-0.5", "1.75", "3", "-2.25", "10.5", "0.125", "-7"}
+var decimals = []string{"0.25", "-0.5", "1.75", "3", "-2.25", "10.5", "0.125", "-7", "123456789.987654321", "-0.000000000000000001", "1000000000000000000000.5", "0.1"}
 var bigints = []string{"1", "-3", "7", "123456789012345678901234567890", "-99999999999999999999", "42", "0", "5"}
 
 func (m *simModule) storeOps(call *wasm.Call, h *hasher) {
@@ -290,6 +306,14 @@ func (m *simModule) storeOps(call *wasm.Call, h *hasher) {
 		x := (r >> 16)
 		iv := int64(x%11) - 5
 		fv := float64(int64(x%33)-16) / 4
+		if (x>>50)%4 == 0 {
+			// many significant bits, still exact under any summation order (multiples of 2^-20 below 2^20):
+			// exercises parsing and formatting without making float addition order-dependent
+			fv = float64(int64((x>>8)%(1<<40))-(1<<39)) / (1 << 20)
+		}
+		if (x>>52)%4 == 0 {
+			iv = int64((x>>8)%(1<<44)) - (1 << 43)
+		}
 		dec := decimals[x%uint64(len(decimals))]
 		bi := bigints[x%uint64(len(bigints))]
 		switch spec.Policy {
